@@ -185,8 +185,11 @@ fn gen_data(rng: &mut Sm64, n: usize, d: usize, fam: u64) -> Vec<Vec<f64>> {
         .collect()
 }
 
+/// number of linkage calls that did not return under the watchdog in this run (their threads keep spinning until exit)
+static WATCHDOG_TIMEOUTS: std::sync::atomic::AtomicUsize = std::sync::atomic::AtomicUsize::new(0);
+
 struct HRun { crit: String, labels: Vec<usize> }
-struct HCase { mid: usize, dist: Vec<f64>, steps: Vec<(usize, usize, f64, usize)>, runs: Vec<HRun> }
+struct HCase { mid: usize, dist: Vec<f64>, steps: Vec<(usize, usize, f64, usize)>, prim: Option<Vec<(usize, usize, f64, usize)>>, runs: Vec<HRun> }
 
 fn hier_labels(kernel: Kernel<f64>, m: Method, num: Option<usize>, dis: Option<f64>) -> (Kernel<f64>, Result<Vec<usize>, String>) {
     let hc = HierarchicalCluster::<f64>::default().with_method(m);
@@ -231,6 +234,15 @@ fn one_case(
         format!("family_{}", fam),
     ];
     for m in hier_methods { tags.push(format!("linkage_{}", METHODS[*m].1)); }
+    if let KM::Poly(c, dg) = km {
+        let dclass = if dg == 0.0 { "zero" } else if dg == 1.0 { "one" } else if dg < 0.0 && dg.fract() != 0.0 { "negative_fraction" }
+            else if dg < 0.0 { "negative_integer" } else if dg.fract() != 0.0 { "positive_fraction" } else { "integer_ge2" };
+        let cclass = if c == 0.0 { "zero" } else if c < 0.0 { "negative" } else { "positive" };
+        tags.push(format!("poly_degree_{}", dclass));
+        tags.push(format!("poly_constant_{}", cclass));
+        out.bump(&format!("poly_degree_{}_{}", dclass, if sparse.is_some() { "sparse" } else { "dense" }));
+        out.bump(&format!("poly_constant_{}_{}", cclass, if sparse.is_some() { "sparse" } else { "dense" }));
+    }
     let tagrefs: Vec<&str> = tags.iter().map(|s| s.as_str()).collect();
     out.bump(&format!("kernel_{}", tagrefs[0].trim_start_matches("kernel_")));
     out.bump(if sparse.is_some() { "kind_sparse" } else { "kind_dense" });
@@ -305,6 +317,29 @@ fn one_case(
             xa.rows().into_iter().map(|r| idx.k_nearest(r, k + 1).unwrap().into_iter().map(|(_, i)| i).collect()).collect()
         }
     };
+    if let Some((k, _)) = sparse {
+        // input class: is the answer to "k+1 nearest" ambiguous for some record (distance tie at the cut), and does
+        // the index drop the record itself from its own answer (more than k+1 copies of it)?
+        let sq = |a: &Vec<f64>, b: &Vec<f64>| a.iter().zip(b.iter()).fold(0.0f64, |s, (x, y)| s + (x - y) * (x - y));
+        let mut tie = false;
+        let mut self_dropped = false;
+        for i in 0..n {
+            let mut ds: Vec<f64> = (0..n).map(|j| sq(&x[i], &x[j])).collect();
+            ds.sort_by(|a, b| a.partial_cmp(b).unwrap_or(std::cmp::Ordering::Equal));
+            if k + 1 < n && ds[k] == ds[k + 1] { tie = true; }
+            if !nbrs[i].contains(&i) { self_dropped = true; }
+        }
+        if tie { out.bump(&format!("knn_tie_at_cut_{}", nnname)); }
+        if self_dropped { out.bump(&format!("knn_self_not_in_answer_{}", nnname)); }
+        if tie {
+            // do the three indices answer differently on this input?
+            let lists: Vec<Vec<Vec<usize>>> = NNS.iter().map(|(a, _)| {
+                let idx = a.from_batch(&xa, L2Dist).expect("index");
+                xa.rows().into_iter().map(|r| { let mut l: Vec<usize> = idx.k_nearest(r, k + 1).unwrap().into_iter().map(|(_, i)| i).collect(); l.sort(); l }).collect()
+            }).collect();
+            if lists[0] != lists[1] || lists[0] != lists[2] { out.bump("knn_indices_answer_differently"); }
+        }
+    }
 
     // ---- transcendental tables ----
     let rowsa: Vec<Array1<f64>> = x.iter().map(|r| Array1::from(r.clone())).collect();
@@ -322,14 +357,83 @@ fn one_case(
     for &mid in hier_methods {
         let m = METHODS[mid].0;
         let mut dd = dist.clone();
-        let stepsr = guarded(move || {
-            let den = kodama::linkage(&mut dd, n, m);
-            den.steps().iter().map(|s| (s.cluster1, s.cluster2, s.dissimilarity, s.size)).collect::<Vec<_>>()
-        });
+        if std::env::var("C06_TRACE").is_ok() { eprintln!("case {} linkage {} on {:?} ({})", id, METHODS[mid].1, dist, desc); }
+        let nonfinite = dist.iter().any(|x| !x.is_finite());
+        let stepsr = if nonfinite {
+            // an infinite similarity gives a -inf dissimilarity; the recurrences of kodama then produce NaN and the call may
+            // panic or never return: observe it under a watchdog (the clustering itself would behave the same)
+            out.bump("nonfinite_dissimilarity_linkages");
+            let mut nf_tags: Vec<&str> = tagrefs.clone();
+            nf_tags.push("nonfinite_dissimilarity");
+            if WATCHDOG_TIMEOUTS.load(std::sync::atomic::Ordering::SeqCst) >= 2 && (mid == 5 || mid == 6) {
+                out.bump("nonfinite_dissimilarity_not_run");
+                continue;
+            }
+            let (tx, rx) = std::sync::mpsc::channel();
+            let (tx2, rx2) = std::sync::mpsc::channel();
+            let kc = kernel.as_ref().unwrap().clone();
+            std::thread::spawn(move || {
+                // the clustering of linfa-hierarchical itself first ...
+                let r1 = guarded(move || {
+                    let hc = HierarchicalCluster::<f64>::default().with_method(m).num_clusters(1);
+                    let r1: Result<DatasetBase<Kernel<f64>, Vec<usize>>, _> = hc.transform(kc);
+                    let _ = r1.map_err(|e| format!("{}", e)).unwrap();
+                });
+                let _ = tx.send(r1);
+                // ... then the harness's own kodama call on the dissimilarities it computed with the same expressions
+                let r2 = guarded(move || {
+                    let den = kodama::linkage(&mut dd, n, m);
+                    den.steps().iter().map(|s| (s.cluster1, s.cluster2, s.dissimilarity, s.size)).collect::<Vec<_>>()
+                });
+                let _ = tx2.send(r2);
+            });
+            let first = rx.recv_timeout(std::time::Duration::from_secs(3));
+            match first {
+                Ok(Ok(())) => match rx2.recv_timeout(std::time::Duration::from_secs(3)) {
+                    Ok(Ok(s)) => Ok(s),
+                    Ok(Err(p)) => { out.bump("harness_kodama_call_panicked_but_transform_returned"); Err(p) }
+                    Err(_) => {
+                        WATCHDOG_TIMEOUTS.fetch_add(1, std::sync::atomic::Ordering::SeqCst);
+                        out.bump("harness_kodama_call_not_returning_but_transform_returned");
+                        Err("timeout".to_string())
+                    }
+                },
+                Ok(Err(p)) => {
+                    out.rust_fail(id, 8192, &nf_tags, &format!("HierarchicalCluster::transform ({}) panics when a similarity is infinite (dissimilarity -inf, NaN in the linkage recurrence): {}", METHODS[mid].1, p), &desc);
+                    Err(p)
+                }
+                Err(_) => {
+                    WATCHDOG_TIMEOUTS.fetch_add(1, std::sync::atomic::Ordering::SeqCst);
+                    out.rust_fail(id, 65536, &nf_tags, &format!("HierarchicalCluster::transform ({}) does not return (3 s watchdog) when a similarity is infinite (dissimilarity -inf, NaN in the linkage recurrence)", METHODS[mid].1), &desc);
+                    Err("timeout".to_string())
+                }
+            }
+        } else {
+            guarded(move || {
+                let den = kodama::linkage(&mut dd, n, m);
+                den.steps().iter().map(|s| (s.cluster1, s.cluster2, s.dissimilarity, s.size)).collect::<Vec<_>>()
+            })
+        };
         let steps = match stepsr {
             Ok(s) => s,
             Err(_) => { out.bump("kodama_panicked_in_harness"); continue; }
         };
+        // the reference ("primitive") agglomerative procedure of kodama on the same dissimilarities: the Coq model
+        // prim_linkage is compared with it bit for bit; kodama::linkage (MST / NN-chain / generic algorithm) may break
+        // ties differently and is judged by the Lance-Williams validity check
+        let mut dd2 = dist.clone();
+        let prim = guarded(move || {
+            let den = kodama::primitive(&mut dd2, n, m);
+            den.steps().iter().map(|s| (s.cluster1, s.cluster2, s.dissimilarity, s.size)).collect::<Vec<_>>()
+        }).ok();
+        match &prim {
+            None => out.bump("kodama_primitive_panicked"),
+            Some(p) => {
+                let same = p.len() == steps.len() && p.iter().zip(steps.iter()).all(|(a, b)| a.0 == b.0 && a.1 == b.1 && a.2.to_bits() == b.2.to_bits() && a.3 == b.3);
+                let same_pairs = p.len() == steps.len() && p.iter().zip(steps.iter()).all(|(a, b)| a.0 == b.0 && a.1 == b.1);
+                out.bump(if same { "linkage_identical_to_primitive" } else if same_pairs { "linkage_same_merges_rounded_heights" } else { "linkage_other_tie_breaking" });
+            }
+        }
         // criteria: cluster counts 1..n+1, thresholds at / between / around the step heights
         let mut crits: Vec<(Option<usize>, Option<f64>)> = (1..=n + 1).map(|k| (Some(k), None)).collect();
         let mut hs: Vec<f64> = steps.iter().map(|s| s.2).collect();
@@ -393,7 +497,7 @@ fn one_case(
             }
         }
         out.bump(&format!("linkage_{}", METHODS[mid].1));
-        hcases.push(HCase { mid, dist: dist.clone(), steps, runs });
+        hcases.push(HCase { mid, dist: dist.clone(), steps, prim, runs });
     }
 
     // ---- positive-semidefiniteness certificate hint (dense Gaussian kernels) ----
@@ -405,10 +509,11 @@ fn one_case(
     // ---- the Coq case ----
     let hc_coq = clist(&hcases, |h| {
         format!(
-            "{{| h_method := {}%N; h_dist := {}; h_steps := {}; h_runs := {} |}}",
+            "{{| h_method := {}%N; h_dist := {}; h_steps := {}; h_prim := {}; h_runs := {} |}}",
             h.mid,
             cvec64(&h.dist),
             clist(&h.steps, |s| format!("mkstep {}%nat {}%nat {} {}%nat", s.0, s.1, sf64(s.2), s.3)),
+            match &h.prim { None => "None".to_string(), Some(p) => format!("(Some {})", clist(p, |s| format!("mkstep {}%nat {}%nat {} {}%nat", s.0, s.1, sf64(s.2), s.3))) },
             clist(&h.runs, |r| format!("({}, {})", r.crit, cvecn(&r.labels)))
         )
     });
@@ -427,7 +532,10 @@ fn one_case(
     let distinct = { let mut w: Vec<Vec<u64>> = x.iter().map(|r| r.iter().map(|f| f.to_bits()).collect()).collect(); w.sort(); w.dedup(); w.len() };
     let salt = fnv(format!("{}|{:?}|{:?}", kname, sparse, hier_methods).as_bytes());
     let key = if n >= 3 && distinct >= 2 { Some(fnv_f64s(&x.concat(), salt)) } else { None };
-    out.case(id, &coq, &tagrefs, &desc, key);
+    // input class of finding F-C06-1: a dissimilarity handed to the linkage is not finite (some similarity is infinite)
+    let mut final_tags: Vec<&str> = tagrefs.clone();
+    if !hier_methods.is_empty() && dist.iter().any(|x| !x.is_finite()) { final_tags.push("nonfinite_dissimilarity"); }
+    out.case(id, &coq, &final_tags, &desc, key);
 }
 
 /// malformed stream: the documented panics / guard errors
@@ -463,7 +571,7 @@ fn pick_km(rng: &mut Sm64) -> KM {
     match rng.below(7) {
         0 | 1 => KM::Lin,
         2 | 3 | 4 => KM::Gauss(*rng.pick(&[0.5, 1.0, 2.0, 5.0, 10.0, 0.1, 0.3, 100.0, 3.7])),
-        _ => KM::Poly(*rng.pick(&[0.0, 1.0, 0.5, -1.0, 2.0]), *rng.pick(&[1.0, 2.0, 3.0, 2.0, 0.0, 0.5, 2.5])),
+        _ => KM::Poly(*rng.pick(&[0.0, 1.0, 0.5, -1.0, 2.0, -0.5]), *rng.pick(&[1.0, 2.0, 3.0, 2.0, 0.0, 0.5, 2.5, -1.0, -0.5, 1.5])),
     }
 }
 
@@ -530,8 +638,35 @@ fn main() {
         }
     }
 
-    // (c) malformed
+    // (c) polynomial grid: every degree class (negative, fractional, 0, 1, integer) x every constant class (0, negative,
+    //     positive) on data whose inner products are negative, zero and positive; dense and sparse (rotating index),
+    //     all views in every case
+    let degrees = [-1.0, -0.5, 0.0, 0.5, 1.0, 1.5, 2.0, 2.5, 3.0, -2.0];
+    let consts = [0.0, -1.0, 1.0, 0.5, -0.25];
+    let npoly = if thorough { 8 } else { 2 };
+    for t in 0..npoly {
+        let mut r = rng.fork();
+        let n = 3 + r.below(4) as usize;
+        let d = 1 + r.below(3) as usize;
+        // half-integer lattice around the origin (inner products of both signs and zero, duplicates possible)
+        let x: Vec<Vec<f64>> = (0..n).map(|i| (0..d).map(|_| if t == 0 && i == 0 { 0.0 } else { r.range(-4, 4) as f64 * 0.5 }).collect()).collect();
+        let mut w = t;
+        for &dg in &degrees {
+            for &c in &consts {
+                let km = KM::Poly(c, dg);
+                let hm: Vec<usize> = if r.chance(0.25) { vec![*r.pick(&[0usize, 1, 2, 3, 4])] } else { vec![] };
+                one_case(&mut out, id, &mut r, &x, "polygrid", km, None, &hm, 8, false);
+                id += 1;
+                let k = 1 + r.below(n as u64 - 1) as usize;
+                one_case(&mut out, id, &mut r, &x, "polygrid", km, Some((k, w % 3)), &[], 0, false);
+                id += 1;
+                w += 1;
+            }
+        }
+    }
+
+    // (d) malformed
     malformed(&mut out, &mut id);
 
-    out.finish("exhaustive: all 1-D point sets over {0,1,2,3} with 2..3 points and over {0,1,2} with 4 points (thorough: {0,1,2,3} up to 4 points, {0,1,2} with 5) x all neighbour counts x 3 indices; random: 6 data families (integer lattice, dyadic blobs, arbitrary doubles, equally spaced line, few distinct points, groups with an outlier) x kernel method (linear / Gaussian / polynomial) x dense or sparse(k, index) x linkage methods x all cluster counts 1..n+1 and thresholds at/next to/between/beyond the dendrogram heights; a case is non-trivial when it has >= 3 points of which >= 2 distinct; distinct = distinct (data, kernel, kind, linkage) hashes");
+    out.finish("exhaustive: all 1-D point sets over {0,1,2,3} with 2..3 points and over {0,1,2} with 4 points (thorough: {0,1,2,3} up to 4 points, {0,1,2} with 5) x all neighbour counts x 3 indices; random: 6 data families (integer lattice, dyadic blobs, arbitrary doubles, equally spaced line, few distinct points, groups with an outlier) x kernel method (linear / Gaussian / polynomial) x dense or sparse(k, index) x linkage methods x all cluster counts 1..n+1 and thresholds at/next to/between/beyond the dendrogram heights; polynomial grid: degrees {-2,-1,-0.5,0,0.5,1,1.5,2,2.5,3} x constants {0,-1,1,0.5,-0.25} on half-integer lattices, dense and sparse, all views; every dendrogram of kodama::linkage is checked against the Lance-Williams recurrence and the model's own agglomeration against kodama::primitive; a case is non-trivial when it has >= 3 points of which >= 2 distinct; distinct = distinct (data, kernel, kind, linkage) hashes");
 }
